@@ -220,6 +220,36 @@ def readFile (sd : Side) (bat : List Nat) (e : Entry) : Bytes :=
         go bs (i + 1) (readSectors sd b sMax lastSize sMax r)
     (go e.blocks 0 (result, 0)).1
 
+/-! ### an efficient evaluation of `readFile`
+
+`readFile` above mirrors Python's repeated slice assignment and costs O(size²) on lists.  When every
+piece has its nominal length (well-formed geometry, at most 8 sectors in the last block, at most 256
+bytes in the last sector) the result is simply the pieces followed by the zeros never overwritten
+(theorem `readFileImpl_eq` in Proofs/DiskFill.lean: `readFileImpl = readFile` for *all* inputs). -/
+
+def blockPieces (sd : Side) (b sMax lastSize : Nat) (cnt : Nat) : Bytes :=
+  (List.range cnt).flatMap fun s => (getSector sd (blockTrack b) (blockFirstSector b + s)).take (pieceLen sMax lastSize s)
+
+/-- what the block loop of `readFile` reads, block after block (mirrors `readFile.go`) -/
+def piecesFrom (sd : Side) (lu lb lastI : Nat) : List Nat → Nat → Bytes
+  | [], _ => []
+  | b :: bs, i =>
+    (if i = lastI then blockPieces sd b lu lb lu else blockPieces sd b 8 255 8) ++ piecesFrom sd lu lb lastI bs (i + 1)
+
+def wfSide (sd : Side) : Bool := sd.length == 1280 && sd.all (·.length == 256)
+
+def readFileImpl (sd : Side) (bat : List Nat) (e : Entry) : Bytes :=
+  match e.blocks.getLast? with
+  | none => []
+  | some last =>
+    let lu := bat.getD last 0 - Gen.Disk.bsLastBlock
+    let lb := e.lastBytes
+    let size := sizeInBytes bat e
+    let pieces := piecesFrom sd lu lb (e.blocks.length - 1) e.blocks 0
+    if wfSide sd && e.blocks.all (· < 160) && decide (lu ≤ 8) && decide (lb ≤ 256) && decide (pieces.length ≤ size) then
+      pieces ++ List.replicate (size - pieces.length) 0
+    else readFile sd bat e
+
 /-! ## controller.py: writeFile, initFileSystem, computeUsage -/
 
 def computeRequiredSlots (size slot : Nat) : Nat × Nat :=
